@@ -626,7 +626,7 @@ PROPS["C05"] = {
           what="real event hand-shake (Handle::notify / Waiter::drain_events) over KStorage + counting trigger: 3 symbolic "
                "notify/try_wait/blocking_wait steps; delivered == notified-and-undelivered; no sleep while pending",
           bounds="unwind 16; ids <= 3"),
-        H("cal::c05ev::c05_ev_notify_races_wait", features=CAL, covers=2, timeout=3600, mem_gb=22,
+        H("cal::c05ev::c05_ev_notify_races_wait", features=CAL, covers=2, timeout=3600, mem_gb=24,
           unwindset={"bit_set&7set_bit": 2, "bit_set&9reset_all&.1": 2},
           what="a notification wakes the listener inside its wait call (or at the start of the drain) and a second one "
                "(id symbolic) completes while the collected ids are handed to the callback; the following wait delivers "
@@ -846,7 +846,7 @@ PROPS["C19"].update({
 })
 
 # properties whose checks are still being stabilised are not claimed in MANIFEST.json yet
-NOT_READY = ["C01", "C02", "C05", "C10", "C12", "C14"]
+NOT_READY = ["C01", "C02", "C10", "C12", "C14"]
 for _p in PROPS:
     PROPS[_p]["claimed"] = (_p not in NOT_READY) and ("level_text" in PROPS[_p])
 PROPS["C03"]["extra"] = [_engine_m("c08_completion")]
